@@ -22,6 +22,7 @@ gradient of MuJoCo's total cost.  Outside (not encodable / iterative float algor
 reach the tolerance, Hessian assembly and factorisation, tile kernels (_update_gradient_grad_tiled, CG tiles), Ma = M.qacc.
 """
 
+import numpy as np
 import z3
 
 from checks import c24, lib
@@ -431,6 +432,368 @@ def unit_grad(stable_fast):
   return (f"grad/{'stable_fast' if stable_fast else 'plain'}", run)
 
 
+
+# ------------------------------------------------------------------------------------------------ dense tiled Hessian H = M + J^T D J
+
+
+def _hessian_ref(pre, w, nv_pad, nrows, nC, compact):
+  """numpy reference on concrete arrays: densified M + sum over rows e < nefc with state QUADRATIC of D_e J_e^T J_e"""
+  import numpy as np
+
+  H = np.zeros((nv_pad, nv_pad))
+  if compact:
+    H += np.asarray(pre["M_in"][w], dtype=float)[:nv_pad, :nv_pad]
+  else:
+    for e in range(nC):
+      H[int(pre["M_colind"][e]), int(pre["M_hinit_i"][e])] += float(pre["M_in"][w, e])
+  n = int(pre["nefc_in"][w])
+  for e in range(min(n, nrows)):
+    if int(pre["efc_state_in"][w, e]) == L.QUADRATIC:
+      J = np.asarray(pre["efc_J_in"][w, e], dtype=float)[:nv_pad]
+      H += float(pre["efc_D_in"][w, e]) * np.outer(J, J)
+  return H
+
+
+def hessian_replay(ctx, name, spec):
+  """launch the REAL tiled kernel (wp.launch_tiled, block_dim as solver._update_gradient passes it) on the arrays of the
+  solver model; further trials keep the integers of the live rows, re-draw the floats and plant stale rows (state QUADRATIC,
+  large D, non-zero J) behind nefc; goal = numpy reference"""
+
+  def _rp(model):
+    import numpy as np
+    import warp as wp
+
+    k, args, w, nv_pad, njmax, nC, compact, locator = spec
+    conc = replay.concretize_args(model, k, args)
+    specs = kh.arg_specs(k)
+    kern = replay.locate(locator)
+    rng = np.random.default_rng(606)
+    ok, text, pre = True, "", None
+    for trial in range(4):
+      vals, arrays = replay.build_arrays(conc, specs)
+      n = int(arrays["nefc_in"].numpy()[w])
+      if trial:
+        for label in ("M_in", "efc_J_in", "efc_D_in"):
+          a = arrays[label].numpy()
+          arrays[label].assign(rng.uniform(0.25, 2.0, size=a.shape).astype(a.dtype))
+        st, D = arrays["efc_state_in"].numpy(), arrays["efc_D_in"].numpy()
+        st[:, max(n, 0) :] = L.QUADRATIC
+        D[:, max(n, 0) :] = 1000.0
+        arrays["efc_state_in"].assign(st)
+        arrays["efc_D_in"].assign(D)
+      arrays["ctx_h_out"].fill_(-777.0)
+      pre = {k_: v.numpy().copy() for k_, v in arrays.items()}
+      nworld = arrays["nefc_in"].shape[0]
+      wp.launch_tiled(kern, dim=nworld, inputs=vals[:-1], outputs=vals[-1:], block_dim=128, device="cpu")
+      wp.synchronize()
+      got = arrays["ctx_h_out"].numpy()[w]
+      if bool(pre["ctx_done_in"][w]):
+        ok = bool(np.all(got == -777.0))
+        text = f"world {w} is done but ctx.h was written: {got.tolist()}"
+      else:
+        want = _hessian_ref(pre, w, nv_pad, pre["efc_D_in"].shape[1], nC, compact)
+        ok = bool(np.allclose(got, want, rtol=2e-3, atol=1e-3))
+        text = f"world {w} nefc {n} njmax {njmax}: ctx.h = {got.tolist()}; M + sum_(e<nefc, QUADRATIC) D_e J_e^T J_e = {want.tolist()}; state row {pre['efc_state_in'][w].tolist()} D row {pre['efc_D_in'][w].tolist()}" + (f" (floats re-drawn, stale rows planted behind nefc, trial {trial})" if trial else "")
+      if not ok:
+        break
+    path = L.write_replay(PID, ctx.unit, name, {"kernel": locator, "how": "wp.launch_tiled(kernel, dim=nworld, inputs=..., outputs=[ctx_h], block_dim=128)", "inputs": {k_: v.tolist() for k_, v in pre.items() if k_ != "ctx_h_out"}, "result": text})
+    return (not ok), path
+
+  return _rp
+
+
+def unit_hessian(nv_pad, tile, njmax, compact, nC=3):
+  name = f"hessian/dense-tiled{'-compact' if compact else ''}/{nv_pad}x{tile}x{njmax}"
+
+  def run(ctx):
+    from mujoco_warp._src import solver
+    from wsym import tiles
+
+    if compact:
+      k = solver._update_gradient_JTDAJ_dense_tiled_compact(nv_pad, tile, njmax)
+      locator = f"mujoco_warp._src.solver:_update_gradient_JTDAJ_dense_tiled_compact({nv_pad}, {tile}, {njmax})"
+    else:
+      k = solver._update_gradient_JTDAJ_dense_tiled(nv_pad, tile, njmax, nC)
+      locator = f"mujoco_warp._src.solver:_update_gradient_JTDAJ_dense_tiled({nv_pad}, {tile}, {njmax}, {nC})"
+    K = min(tile, njmax)
+    rows = -(-njmax // K) * K  # efc arrays are padded to a multiple of the tile size (io._get_padded_sizes)
+    nworld, w = 2, 1
+    ctx.encode(k, solver._active_check, solver._state_check)
+    ctx.bound(nv_pad=nv_pad, TILE_SIZE_K=K, njmax=njmax, padded_rows=rows, nC=("-" if compact else nC), nworld=nworld, world=w, block="one block, block_dim() = 1 lane, rank 0 (Warp CPU backend; lane schedules of a wider GPU block not modelled)")
+    ctx.assume(
+      "0 <= nefc <= njmax (no overflow); efc_J / efc_D / efc_state have njmax rounded up to the tile size rows (io._get_padded_sizes), ctx.h is (nworld, nv_pad, nv_pad)",
+      "all of nefc, efc_state, efc_D, efc_J (including the rows behind nefc and the padding rows), M symbolic" + ("" if compact else "; M_colind / M_hinit_i symbolic with 0 <= M_colind[e] <= M_hinit_i[e] < nv_pad (CSR lower-triangle entries, densified into the upper triangle)"),
+      "floats are exact reals",
+    )
+    shapes = {"nefc_in": [nworld], "efc_J_in": [nworld, rows, nv_pad], "efc_D_in": [nworld, rows], "efc_state_in": [nworld, rows], "ctx_done_in": [nworld], "ctx_h_out": [nworld, nv_pad, nv_pad]}
+    shapes.update({"M_in": [nworld, nv_pad, nv_pad]} if compact else {"M_colind": [nC], "M_hinit_i": [nC], "M_in": [nworld, nC]})
+    outs = {}
+    for done in (False, True):
+      args = kh.make_args(k, shapes=shapes, mode="dense")
+      args["ctx_done_in"].cell.d = [[done] * nworld]
+      replay.snapshot_initial(args)
+      it, _ = kh.run(k, args, tid=(w, 0), interp=tiles.BlockInterp(unroll=max(8, nC + 2)))
+      outs[done] = (args, it)
+    args, it = outs[False]
+    pre = lambda lab, *idx: args[lab].cell.get(idx, 0, snap=args[lab].cell.d0)
+    nefc = pre("nefc_in", w)
+    bg = [core.zbool(a) for a in it.assumes] + [nefc >= 0, nefc <= njmax]
+    if not compact:
+      for e in range(nC):
+        bg += [pre("M_colind", e) >= 0, pre("M_colind", e) <= pre("M_hinit_i", e), pre("M_hinit_i", e) < nv_pad]
+    sess = ctx.session(bg)
+    ctx.reach(sess, "twin:live-rows-and-stale-rows", And(nefc >= 1, nefc < njmax))
+    spec = (k, args, w, nv_pad, njmax, nC, compact, locator)
+    rp = hessian_replay(ctx, "h", spec)
+    names = {"nefc": nefc}
+    for ob in it.obl:
+      if ob.kind == "unwind":
+        ctx.prove(sess, f"unwind/{ob.where.split(':')[-1]}", ob.cond, ob.guard, names=names, replay=rp, desc="loop bound too small (harness)")
+      else:
+        ctx.prove(sess, f"inrange/{ob.where.split(':')[-1]}/{ob.info[1]}[{ob.info[2]}]#{id(ob) % 99991}", ob.strict, ob.guard, names=names, replay=rp, desc=f"dense tiled Hessian: unchecked tile access outside the (padded) array at {ob.where}")
+    hcell = args["ctx_h_out"].cell
+    post = lambda r, c: hcell.get((w, r, c))
+
+    def mref(r, c):
+      if compact:
+        return pre("M_in", w, r, c)
+      s = 0.0
+      for e in range(nC):
+        s = arith("+", s, ite(And(pre("M_colind", e) == r, pre("M_hinit_i", e) == c), pre("M_in", w, e), 0.0))
+      return s
+
+    stale_cells = lambda n: [pre("efc_D_in", w, e) for e in range(n, rows)] + [pre("efc_state_in", w, e) for e in range(n, rows)] + [pre("efc_J_in", w, e, i) for e in range(n, rows) for i in range(nv_pad)]
+    for n in range(njmax + 1):
+      g = nefc == n
+      sub = [(x, z3.Const(str(x) + "'", x.sort())) for x in stale_cells(n)]
+      for r in range(nv_pad):
+        for c in range(nv_pad):
+          want = mref(r, c)
+          for e in range(n):
+            want = arith("+", want, L.mul(ite(pre("efc_state_in", w, e) == L.QUADRATIC, pre("efc_D_in", w, e), 0.0), pre("efc_J_in", w, e, r), pre("efc_J_in", w, e, c)))
+          tri = "upper" if r <= c else "lower"
+          ctx.prove(sess, f"nefc={n}/h[{r},{c}]==M+JT.D.J({tri})", cmp("==", post(r, c), want), g, names=names, replay=rp, desc=f"dense tiled Hessian: ctx.h[{r},{c}] differs from M + sum over the {n} live QUADRATIC rows of D J^T J (a row behind nefc or a non-QUADRATIC row enters, or a live row is missing)")
+          if sub:
+            ctx.prove(sess, f"nefc={n}/h[{r},{c}]-independent-of-rows>=nefc", post(r, c) == z3.substitute(core.to_z3(post(r, c), "real"), *sub), g, names=names, replay=rp, desc=f"dense tiled Hessian: ctx.h[{r},{c}] depends on a cell of a row >= nefc (stale D / J / state)")
+    # converged world: nothing written
+    a2, it2 = outs[True]
+    wrote = [a for a in it2.accesses if a.cell is a2["ctx_h_out"].cell and a.kind.startswith(("W", "A")) and a.guard is not False]
+    s2 = ctx.session([core.zbool(a) for a in it2.assumes])
+    ctx.reach(s2, "twin:done-world", True)
+    ctx.prove(s2, "done=>h-untouched", core.Not(core.Or(*[a.guard for a in wrote])) if wrote else True, True, names={}, replay=hessian_replay(ctx, "done", (k, a2, w, nv_pad, njmax, nC, compact, locator)), desc="dense tiled Hessian kernel writes ctx.h of a converged world")
+
+  return (name, run)
+
+
+def unit_hessian_leaves(ctx):
+  from mujoco_warp._src import solver
+
+  ctx.encode(solver._active_check, solver._state_check)
+  nr = lambda what: (lambda m: leaf_replay(ctx, what, m))
+  a = kh.make_args(solver._active_check)
+  it, r = kh.run(solver._active_check, a)
+  s = ctx.session([core.zbool(x) for x in it.assumes])
+  ctx.reach(s, "twin:active", a["tid"] < a["threshold"])
+  ctx.prove(s, "_active_check==(tid<threshold)", cmp("==", r, ite(a["tid"] < a["threshold"], 1.0, 0.0)), True, names={"tid": a["tid"], "threshold": a["threshold"]}, replay=nr("active"), desc="_active_check: lane mask is not 1 exactly for tid < threshold (off-by-one lets the first row behind nefc into H)")
+  b = kh.make_args(solver._state_check)
+  it2, r2 = kh.run(solver._state_check, b)
+  s2 = ctx.session([core.zbool(x) for x in it2.assumes])
+  ctx.reach(s2, "twin:quadratic", b["state"] == L.QUADRATIC)
+  ctx.prove(s2, "_state_check==(D if QUADRATIC else 0)", cmp("==", r2, ite(b["state"] == L.QUADRATIC, b["D"], 0.0)), True, names={"D": b["D"], "state": b["state"]}, replay=nr("state"), desc="_state_check: D is not kept exactly for QUADRATIC rows")
+
+
+def leaf_replay(ctx, what, model):
+  import numpy as np
+  import warp as wp
+
+  from mujoco_warp._src import solver
+
+  ac, sc = solver._active_check, solver._state_check
+
+  @wp.kernel
+  def c06_leaf_runner(i: wp.array[int], x: wp.array[float], out: wp.array[float]):
+    out[0] = ac(i[0], i[1])
+    out[1] = sc(x[0], i[2])
+
+  vals = {str(d): model[d] for d in model.decls()}
+  gi = lambda n, dflt: int(str(vals[n])) if n in vals else dflt
+  tid, thr, st = gi("tid", 0), gi("threshold", 0), gi("state", 1)
+  D = L.mvalf(model, z3.Real("D"))
+  out = wp.zeros(2, dtype=float)
+  wp.launch(c06_leaf_runner, dim=1, inputs=[wp.array(np.array([tid, thr, st], dtype=np.int32), dtype=int), wp.array(np.array([D], dtype=np.float32), dtype=float)], outputs=[out], device="cpu")
+  o = out.numpy()
+  if what == "active":
+    ok = float(o[0]) == (1.0 if tid < thr else 0.0)
+    text = f"_active_check({tid}, {thr}) = {float(o[0])}"
+  else:
+    ok = lib.approx(float(o[1]), D if st == L.QUADRATIC else 0.0)
+    text = f"_state_check({D}, {st}) = {float(o[1])}"
+  return (not ok), L.write_replay(PID, ctx.unit, what, {"result": text})
+
+
+# ------------------------------------------------------------------------------------------------ elliptic cone Hessian J^T C J (dense)
+
+
+def ref_cone_hessian(jar, D0, mu, fr, T, Dm, iT):
+  """MuJoCo's cone Hessian contact.H (mj_constraintUpdate, middle zone) in residual space, dim x dim nested list.
+  T = |(jar_j*fr_j)|, Dm*mu^2*(1+mu^2) = D0, iT*T = 1 (helpers symbolically, computed numerically)"""
+  dim = len(jar)
+  N = L.mul(jar[0], mu)
+  U = [L.mul(jar[j], fr[j - 1]) for j in range(1, dim)]
+  h = [[0.0] * dim for _ in range(dim)]
+  h[0][0] = 1.0
+  a = L.neg(L.mul(mu, iT))
+  b = L.mul(mu, N, iT, iT, iT)
+  dg = L.sub(L.mul(mu, mu), L.mul(mu, N, iT))
+  for j in range(1, dim):
+    h[0][j] = h[j][0] = L.mul(a, U[j - 1])
+  for k_ in range(1, dim):
+    for j in range(1, dim):
+      h[k_][j] = L.mul(b, U[j - 1], U[k_ - 1])
+    h[k_][k_] = L.add(h[k_][k_], dg)
+  sc = [mu] + list(fr[: dim - 1])
+  return [[L.mul(Dm, h[r][c], sc[r], sc[c]) for c in range(dim)] for r in range(dim)]
+
+
+def validate_cone_hessian(seed):
+  import mujoco
+  import numpy as np
+
+  m = mujoco.MjModel.from_xml_string(L._XML.format(cone="elliptic", imp=2.5))
+  d = mujoco.MjData(m)
+  mujoco.mj_resetDataKeyframe(m, d, 0)
+  mujoco.mj_forward(m, d)
+  rng = np.random.default_rng(seed + 6)
+  seen = set()
+  for _ in range(60):
+    jar = rng.normal(size=d.nefc)
+    for con in d.contact:
+      if con.dim > 1:
+        jar[con.efc_address] = rng.normal() * 0.3
+    mujoco.mj_constraintUpdate(m, d, jar, None, 1)
+    for con in d.contact:
+      a, dim = con.efc_address, con.dim
+      if dim > 1 and d.efc_state[a] == L.CONE:
+        x = [float(v) for v in jar[a : a + dim]]
+        fr = [float(v) for v in con.friction]
+        T = float(np.sqrt(sum((x[j] * fr[j - 1]) ** 2 for j in range(1, dim))))
+        mu = float(con.mu)
+        R = ref_cone_hessian(x, float(d.efc_D[a]), mu, fr, T, float(d.efc_D[a]) / (mu * mu * (1 + mu * mu)), 1.0 / T)
+        if not np.allclose(np.array(con.H[: dim * dim]).reshape(dim, dim), np.array(R, dtype=float), rtol=1e-8, atol=1e-10):
+          return f"cone Hessian reference differs from mujoco contact.H (dim {dim})"
+        seen.add(dim)
+  return None if seen == {3, 4, 6} else f"cone Hessian validation covered dims {seen}"
+
+
+def goal_cone_hessian(spec, pre, post):
+  import numpy as np
+
+  e = spec["env"]
+  w, c, e0, dim, d1, d2 = [int(e[k_]) for k_ in ("w", "conid", "e0", "dim", "dof1", "dof2")]
+  fr = [float(x) for x in pre["contact_friction_in"][c]]
+  imp = pre["opt_impratio_invsqrt"]
+  mu = fr[0] * float(imp[w % len(imp)])
+  x = [float(pre["ctx_Jaref_in"][w, e0 + j]) for j in range(dim)]
+  D0 = float(pre["efc_D_in"][w, e0])
+  T = float(np.sqrt(sum((x[j] * fr[j - 1]) ** 2 for j in range(1, dim))))
+  got = float(post["ctx_h_out"][w, d1, d2]) - float(pre["ctx_h_out"][w, d1, d2])
+  active = (not bool(pre["ctx_done_in"][w])) and int(pre["efc_state_in"][w, e0]) == L.CONE and float(pre["contact_dist_in"][c]) - float(pre["contact_includemargin_in"][c]) < 0
+  want = 0.0
+  if active and T > 0:
+    H = np.array(ref_cone_hessian(x, D0, mu, fr, T, D0 / (mu * mu * (1 + mu * mu)), 1.0 / T), dtype=float)
+    J = np.array([[float(pre["efc_J_in"][w, e0 + j, dd]) for dd in (d1, d2)] for j in range(dim)])
+    want = float(J[:, 0] @ H @ J[:, 1])
+  ok = lib.approx(got, want, rtol=3e-3, atol=1e-3 * max(1.0, abs(want)))
+  return ok, f"contact {c} (rows {e0}..{e0 + dim - 1}, world {w}) active {active}: ctx.h[{d1},{d2}] += {got}; (J^T C J)[{d1},{d2}] with MuJoCo's cone Hessian = {want}; jaref {x} mu {mu} friction {fr[: dim - 1]} D0 {D0}"
+
+
+def unit_cone_hessian(dim, layout="A"):
+  def run(ctx):
+    from mujoco_warp._src import solver, types
+
+    err = validate_cone_hessian(ctx.seed)
+    if err:
+      ctx.error("reference validation against mujoco contact.H failed: " + err)
+      return
+    k = solver._update_gradient_JTCJ_dense
+    loc = "mujoco_warp._src.solver:_update_gradient_JTCJ_dense"
+    nworld, w, ne, nf, after, ncon, c = L.LAYOUTS[layout]
+    e0 = ne + nf
+    njmax = e0 + dim + after
+    nv = 2
+    tri = [(0, 0), (1, 0), (1, 1)]
+    nadr = max(1, 2 * (dim - 1))
+    ctx.encode(k, solver._elliptic_hessian_entry_from_projections)
+    ctx.bound(condim=dim, nv=nv, layout=f"nworld={nworld}, world {w}, contact {c} of {ncon} on rows {e0}..{e0 + dim - 1}, njmax={njmax}; one contact per thread (nblocks_perblock=1)")
+    ctx.assume(
+      "concrete bookkeeping (contact listed, condim, efc_address[c,j] = e0+j, world not done, normal row state CONE, dist < margin); all floats symbolic",
+      "mu > 0, friction > 0, D_0 > 0; the MJ_MINVAL clamps on T and T^3 inactive (T >= MINVAL, T^3 >= MINVAL: always so in the middle zone away from the cone axis)",
+      "floats are exact reals; sqrt / safe_div as polynomial contracts",
+    )
+    shapes = {"opt_impratio_invsqrt": [nworld], "dof_tri_row": [3], "dof_tri_col": [3], "contact_dist_in": [ncon], "contact_includemargin_in": [ncon], "contact_friction_in": [ncon], "contact_dim_in": [ncon], "contact_efc_address_in": [ncon, nadr], "contact_worldid_in": [ncon], "efc_J_in": [nworld, njmax, nv], "efc_D_in": [nworld, njmax], "efc_state_in": [nworld, njmax], "nacon_in": [1], "ctx_Jaref_in": [nworld, njmax], "ctx_done_in": [nworld], "ctx_h_out": [nworld, nv, nv]}  # fmt: skip
+    MINVAL = z3.RealVal(repr(float(types.MJ_MINVAL)))
+    for el, (d1, d2) in enumerate(tri):
+      args = kh.make_args(k, shapes=shapes, scalars={"naconmax_in": ncon, "nblocks_perblock": 1, "dim_block": 1}, mode="dense")
+
+      def setint(label, values):
+        cell = args[label].cell
+        flat = list(np.asarray(values).reshape(-1))
+        cell.d = [[(bool(v) if cell.dtype == "bool" else int(v)) for v in flat]]
+
+      import numpy as np
+
+      adr = np.full((ncon, nadr), -1)
+      adr[c, :dim] = np.arange(e0, e0 + dim)
+      st = np.full((nworld, njmax), L.QUADRATIC)
+      st[w, e0] = L.CONE
+      setint("dof_tri_row", [t[0] for t in tri])
+      setint("dof_tri_col", [t[1] for t in tri])
+      setint("contact_dim_in", [dim] * ncon)
+      setint("contact_efc_address_in", adr)
+      setint("contact_worldid_in", [w if i == c else min(i, nworld - 1) for i in range(ncon)])
+      setint("efc_state_in", st)
+      setint("nacon_in", [ncon])
+      setint("ctx_done_in", [False] * nworld)
+      replay.snapshot_initial(args)
+      it = L.func_interp()
+      kh.run(k, args, tid=(c, el), interp=it)
+      pre = lambda lab, *idx, k_=0: args[lab].cell.get(idx, k_, snap=args[lab].cell.d0)
+      x = [pre("ctx_Jaref_in", w, e0 + j) for j in range(dim)]
+      fr = [pre("contact_friction_in", c, k_=i) for i in range(5)]
+      mu = fr[0] * pre("opt_impratio_invsqrt", w)
+      D0 = pre("efc_D_in", w, e0)
+      if len(it.roots) != 1:
+        ctx.error(f"expected one sqrt in the kernel, saw {len(it.roots)}")
+        return
+      T = list(it.roots.values())[0]
+      Dm, iT = z3.Real("Dm"), z3.Real("iT")
+      live = pre("contact_dist_in", c) - pre("contact_includemargin_in", c) < 0
+      bg = [core.zbool(a) for a in it.assumes] + [mu > 0, D0 > 0, T >= MINVAL, T * T * T >= MINVAL, Dm * mu * mu * (1 + mu * mu) == D0, iT * T == 1] + [fr[i] > 0 for i in range(dim - 1)]
+      sess = ctx.session(bg, tactic=NL)
+      ctx.reach(ctx.session(bg), f"twin:cone-contact/h[{d1},{d2}]", live)
+      H = ref_cone_hessian(x, D0, mu, fr, T, Dm, iT)
+      want = 0.0
+      for a_ in range(dim):
+        for b_ in range(dim):
+          want = L.add(want, L.mul(pre("efc_J_in", w, e0 + a_, d1), H[a_][b_], pre("efc_J_in", w, e0 + b_, d2)))
+      hc = args["ctx_h_out"].cell
+      inc = hc.get((w, d1, d2)) - pre("ctx_h_out", w, d1, d2)
+
+      class KT:
+        kernel, tid = k, (c, el)
+
+      KT.args = args
+      env = {"w": w, "conid": c, "e0": e0, "dim": dim, "dof1": d1, "dof2": d2, "randomize_floats": 0}
+      rp = lib.make_replay(ctx, KT, loc, f"h{d1}{d2}", "goal", goal="checks.c06:goal_cone_hessian", env=env)
+      names = {f"jaref{j}": x[j] for j in range(dim)} | {"mu": mu, "D0": D0, "T": T}
+      ctx.prove(sess, f"h[{d1},{d2}]+=(JT.C.J)[{d1},{d2}]", inc == want, live, names=names, replay=rp, desc=f"elliptic cone Hessian (condim {dim}): the increment of ctx.h[{d1},{d2}] differs from J^T C J with MuJoCo's cone Hessian C (contact.H)")
+      ctx.prove(sess, f"h[{d1},{d2}]:inactive-contact-adds-nothing", inc == 0, core.Not(live), names=names, replay=rp, desc="elliptic cone Hessian: a contact with dist >= margin contributes")
+      others = [hc.get((ww, r, cc)) == pre("ctx_h_out", ww, r, cc) for ww in range(nworld) for r in range(nv) for cc in range(nv) if (ww, r, cc) != (w, d1, d2)]
+      ctx.prove(sess, f"h[{d1},{d2}]:writes-only-own-entry", And(*others), True, names=names, replay=rp, desc="elliptic cone Hessian thread modifies another entry of ctx.h")
+
+  return (f"hessian/cone-dense/condim{dim}/{layout}", run)
+
+
 def main(tier, seed, only=None):
   thorough = tier == "thorough"
   units = [unit_cert_scalar(kd) for kd in ("equality", "friction", "ineq")]
@@ -441,6 +804,11 @@ def main(tier, seed, only=None):
   if thorough:
     units += [unit_jaref("dense-split-60x20", False, 60, 20, False, U), unit_jaref("dense-single-30", False, 30, 50, False, U)]
   units += [unit_grad(False), unit_grad(True)]
+  units += [("hessian/leaves", unit_hessian_leaves), unit_hessian(2, 2, 4, False), unit_hessian(2, 2, 4, True)]
+  units += [unit_cone_hessian(3)]
+  if thorough:
+    units += [unit_cone_hessian(4), unit_cone_hessian(3, "C")]
+    units += [unit_hessian(3, 4, 6, False, nC=4), unit_hessian(3, 4, 6, True), unit_hessian(2, 16, 3, False), unit_hessian(2, 16, 3, True)]
   if only:
     units = [u for u in units if any(o in u[0] for o in only)]
   return report.run_check(PID, units, tier, seed)
